@@ -104,3 +104,17 @@ PROPS["C10"] = {
     "level_note": "operand quantities: simple x simple (thorough adds derived shapes); numpy division excluded (zero elements give inf/nan, outside the real model); numpy elementwise arithmetic assumed (A5); floats are reals",
     "trusted": ARITH_TRUSTED + ["numpy: arithmetic operators act elementwise on ndarrays of equal length and raise ValueError otherwise (A5)", "callee contracts used: UnitDatabase.Sum/Subtract/Multiply/Divide/FloorDivide (verified against their bodies in C03/C04)"],
 }
+
+STD_TRUSTED = [
+    "z3 5.1.0; cvc5 1.0.3 for z3's unknowns",
+    "pyvc symbolic interpreter for Python semantics",
+    "floats as reals (A1)",
+]
+PROPS["C05"] = {
+    "tasks": lambda tier: [V(UDB + ":UnitDatabase.GetInfo"), V(UDB + ":UnitDatabase.Convert"), V(UDB + ":UnitDatabase.CheckCategoryUnit"), V(QM + ":Quantity.__init__"), V(QM + ":ObtainQuantity"), V(QM + ":Quantity.ConvertScalarValue"), V(SC + ".__lt__#ordering")]
+    + VP(UDB + ":UnitDatabase.Sum", 3) + VP(UDB + ":UnitDatabase.Subtract", 3) + VP(OPS_KEY, 10) + VP(AOPS_KEY, 12),
+    "level": "proof",
+    "level_text": "Exceptional postconditions, proved of the real bodies for arbitrary well-formed registries and symbolic arguments, in both directions (raises when it must, returns when it must not): GetInfo raises InvalidUnitError iff the unit does not resolve inside the (existing) quantity type and InvalidQuantityTypeError iff the type does not exist, with the explicit Unknown exemption; Convert, Quantity.ConvertScalarValue and Scalar.GetValue inherit; CheckCategoryUnit raises iff the unit is not valid for the category on the memo-hit and the memo-miss path; Quantity.__init__/ObtainQuantity raise for a unit outside the category's quantity type (after the legacy rewrite); adding/subtracting Scalars or Arrays of different dimensions raises InvalidOperationError with dimensionless operands exempt; ordering Scalars of different quantity types raises TypeError. On every path, raising or not, the registry is proved unchanged except for consistent memo/intern-table insertions, the operand value objects and the operand quantities are unchanged (frame obligations).",
+    "level_note": "arithmetic shape-bounded as C03; registry invariants WF/CC assumed for inputs; FractionScalar ordering not yet under contract",
+    "trusted": STD_TRUSTED,
+}
